@@ -431,6 +431,15 @@ class FrontEnd:
 
     # ------------------------------------------------------------------ many independent reads, on several cores
     def job(self, j: Dict[str, Any]) -> Dict[str, Any]:
+        try:
+            return self._job(j)
+        finally:
+            if not j.get("_continued"):
+                # ... and the process ends with the job: nothing it left in module-level objects is there for whoever evaluates
+                # next in this (real) process - another job, or a rule of another kind
+                _fold_mod.PROCESS_STATE.clear()
+
+    def _job(self, j: Dict[str, Any]) -> Dict[str, Any]:
         """one read described by plain values: files, entry, root (read_namespace) / targets + lookup (read_files), kwargs,
         handler (a recording print handler is passed), cwd; answers with plain values (no instances)"""
         from ..absint import Recorder
